@@ -91,6 +91,25 @@ void h_update_code_arr (void) {
   __CPROVER_assert (vp_set_code_calls == 1, "postcondition: code is written through _MIR_set_code");
   REACH ("end");
 }
+#ifndef VP_NREL
+#define VP_NREL 256
+#endif
+/* unbounded route for the max-offset loop (loop contract in annot/code.ann): any number of relocations up to the
+   capacity of the harness array; "every offset is below 2^40" is a quantified precondition over that array */
+void h_update_code_arr_lc (void) {
+  vp_G = nondet_size ();
+  vp_set_code_calls = 0; /* DFCC makes statics unconstrained at the entry point: ghost state is reset explicitly */
+  vp_ctx_setup ();
+  size_t nloc = nondet_size ();
+  __CPROVER_assume (nloc >= 1 && nloc <= VP_NREL && vp_G < nloc);
+  MIR_code_reloc_t relocs[VP_NREL]; /* automatic: unconstrained contents */
+  __CPROVER_assume (__CPROVER_forall { size_t k; (k < VP_NREL) ==> relocs[k].offset <= ((size_t) 1 << 40) });
+  uint8_t *base = (uint8_t *) nondet_size ();
+  __CPROVER_assume ((size_t) base <= ((size_t) 1 << 46));
+  _MIR_update_code_arr (&vp_ctx, base, nloc, relocs);
+  __CPROVER_assert (vp_set_code_calls == 1, "postcondition: code is written through _MIR_set_code");
+  REACH ("end");
+}
 void h_change_code (void) {
   vp_G = 0;
   vp_ctx_setup ();
